@@ -20,6 +20,7 @@ type cval struct {
 	ghost string     // "set" for ghost sets
 	isNil bool       // untyped nil literal
 	isRef bool       // t is the address of a by-value struct of type ty
+	mget  *Term      // for a slice-valued map lookup m[k] with a bound variable in k: the same lookup in function form (MapGet)
 }
 
 type Env struct {
@@ -454,11 +455,27 @@ func (env *Env) indexVal(a, i cval) cval {
 	}
 	switch t := a.ty.Underlying().(type) {
 	case *types.Slice:
+		if a.mget != nil {
+			return cval{t: env.e.elemAt(env.st, a.mget, i.t, sortOf(t.Elem())), ty: t.Elem()}
+		}
 		return cval{t: env.e.elemAt(env.st, a.t, i.t, sortOf(t.Elem())), ty: t.Elem()}
 	case *types.Map:
 		k, v := mapSorts(a.ty)
 		has := And(Neq(a.t, IntLit(0)), Select(env.e.mapDom(env.st, a.t, k, v), i.t))
-		return cval{t: Ite(has, Select(env.e.mapVal(env.st, a.t, k, v), i.t), zeroOfSort(v)), ty: t.Elem()}
+		val := Ite(has, Select(env.e.mapVal(env.st, a.t, k, v), i.t), zeroOfSort(v))
+		if v == SSlice {
+			// Slice-valued map. An ELEMENT of m[k] under a quantifier over k (m[k][j]) needs a trigger that covers j, and
+			// the guarded lookup ite(m != nil && dom[k], val[k], nil) cannot occur in one (no ite/and in patterns). The
+			// element access therefore goes through the lookup in function form (MapGet, with an instantiation axiom like
+			// at_<sort>); facts that only compare headers (arr(m[a]) != arr(m[b])) keep the plain form, which the solvers'
+			// model-based instantiation handles well. Ground lookups record the equality of both forms.
+			mg := MapGet(Neq(a.t, IntLit(0)), env.e.mapDom(env.st, a.t, k, v), env.e.mapVal(env.st, a.t, k, v), i.t, k, v)
+			if i.t.flags&flagHasBound != 0 {
+				return cval{t: val, ty: t.Elem(), mget: mg}
+			}
+			env.e.assumeAlways(Eq(mg, val))
+		}
+		return cval{t: val, ty: t.Elem()}
 	case *types.Basic:
 		if t.Info()&types.IsString != 0 {
 			return cval{t: mk("str.at", SString, a.t, i.t), ty: a.ty}
@@ -756,7 +773,7 @@ func (env *Env) evalCall(x *CExpr) cval {
 		if sp := e.P.Prog.Package(env.pkg); sp != nil {
 			if fn := sp.Func(x.Name); fn != nil && e.canInline(fn) {
 				for n := range e.P.FuncModset(fn) {
-					if n != "next" {
+					if n != "next" && !strings.HasPrefix(n, "alloc:") {
 						cfail("function %s used in a contract is not pure (writes %s)", x.Name, n)
 					}
 				}
@@ -1447,4 +1464,16 @@ func (e *Exec) applySpec(sf *SpecFun, args []cval, env *Env) cval {
 		ts = append(ts, t)
 	}
 	return cval{t: App(d.smt, d.ret, ts...), ty: d.retTy, ghost: d.ghost}
+}
+
+// MapGet is the guarded map lookup ite(ok && dom[key], val[key], zero) as an uninterpreted function with an instantiation
+// axiom (pattern: the application itself).
+func MapGet(ok, dom, val, key *Term, ks, vs Sort) *Term {
+	name := "mget_" + sortTag(ks) + "_" + sortTag(vs)
+	fn := DeclFun(name, []Sort{SBool, dom.Sort, val.Sort, ks}, vs)
+	if _, done := TS.axioms[fn]; !done {
+		o, d, v, k := BoundVar("o", SBool), BoundVar("d", dom.Sort), BoundVar("v", val.Sort), BoundVar("k", ks)
+		AddInstAxiom(fn, []*Term{o, d, v, k}, App(fn, vs, o, d, v, k), Eq(App(fn, vs, o, d, v, k), Ite(And(o, Select(d, k)), Select(v, k), zeroOfSort(vs))))
+	}
+	return App(fn, vs, ok, dom, val, key)
 }
